@@ -137,6 +137,28 @@ def random_pairs(seed, count, max_nodes=14):
     return out
 
 
+def run_xspec(run, label, pairs, rng):
+    """pairs of treespecs made under two DIFFERENT option sets"""
+    items = []
+    for i, (a, b) in enumerate(pairs):
+        c1 = PAIR_CFGS[(i * 5) % len(PAIR_CFGS)]
+        c2 = PAIR_CFGS[(i * 5 + 1 + (i % 11)) % len(PAIR_CFGS)]
+        items.append({'a': a, 'b': b, 'cfgs': [c1], 'cfg2s': [c2]})
+    wd = os.path.join(tla.WORK, f'{run.pid}-{label}')
+    os.makedirs(wd, exist_ok=True)
+    inp, outp = os.path.join(wd, 'work.ndjson'), os.path.join(wd, 'cases.in.ndjson')
+    F.write_work(inp, items)
+    p = run.drive('harness.drivers.d_pair', [inp, outp, 'xspec'])
+    if p.returncode != 0:
+        return 0
+    cases = [json.loads(l) for l in open(outp)]
+    for idx, clauses in run.judge(cases, label):
+        run.violation({'kind': 'judge', 'op': 'xspec', 'clauses': clauses, 'case': cases[idx]},
+                      f'xspec (treespecs from different option sets): real optree disagrees with the specification on {clauses}')
+    os.remove(outp)
+    return len(cases)
+
+
 def run_pairs(run, label, pairs, fams, k, rng):
     items = []
     for i, (a, b) in enumerate(pairs):
